@@ -12,6 +12,7 @@ import contextlib
 import io
 import itertools
 import math
+import os
 import random
 from fractions import Fraction
 
@@ -27,6 +28,13 @@ def eff_margin(cfg):
     it is never read back from the object under test"""
     return 0.9 if cfg["margin"] is None else float(cfg["margin"])
 SAFETY = [0.0, 0.125, 0.25, 0.1]
+
+# Known defect of the tree under test (reported in handoff/C03.md, fix staged in handoff/postfix/C03): a second
+# performSpatiallyAdaptiv on the same object keeps `max_level_dict` / `subtraction_value_cache` of the previous run until the
+# first refinement_postprocessing, so the component grids of the restarted run differ from those of a fresh object.  The
+# clauses of C03 still hold on those grids; the model comparison of the grids before the first refine() of a restarted run is
+# switched on by the post-fix package.
+RESTART_OBSERVE_BEFORE_FIRST_REFINE = os.environ.get("VERIF_DIMWISE_RESTART_STRICT", "0") == "1"
 
 _classes = {}
 
@@ -77,6 +85,15 @@ def classes():
             self.rec_rebalance.append((int(refinement_container.dim), int(start), int(end), int(level)))
             return super().rebalance_interval(start, end, level, refinement_container)
 
+        def get_point_coord_for_each_dim(self, levelvec):
+            # use-site observation: what the consumers (evaluation, interpolation) actually get
+            r = super().get_point_coord_for_each_dim(levelvec)
+            rec = getattr(self, "rec_grids", None)
+            if rec is not None:
+                rec.append((tuple(int(x) for x in levelvec), [[float(x) for x in r[0][d]] for d in range(len(r[0]))],
+                            [[int(x) for x in r[1][d]] for d in range(len(r[1]))]))
+            return r
+
     _classes.update(TableF=TableF, Scripted=Scripted, Instr=Instr, np=np)
     return _classes
 
@@ -122,9 +139,24 @@ class Impl:
         self.f = c["TableF"](cfg["fseed"])
         op = Integration(self.f, grid=grid, dim=self.dim, reference_solution=np.array([1.0]))
         self.ec = c["Scripted"]()
+        rep = cfg.get("flagrep", "bool")       # the Python type in which the Boolean options are passed
+        conv = {"bool": bool, "int": int, "npbool": np.bool_}[rep]
+        if rep != "bool":
+            grid = GlobalTrapezoidalGrid(self.a, self.b, boundary=conv(bool(cfg["boundary"])), modified_basis=conv(False))
+            op = Integration(self.f, grid=grid, dim=self.dim, reference_solution=np.array([1.0]))
         self.sa = c["Instr"](self.a, self.b, version=cfg["version"], operation=op, margin=(None if cfg["margin"] is None else float(cfg["margin"])),
-                             rebalancing=bool(cfg["rebalancing"]), rebalancing_safety_factor=float(cfg["sf"]),
+                             rebalancing=conv(bool(cfg["rebalancing"])), rebalancing_safety_factor=float(cfg["sf"]),
                              log_level=log_levels.WARNING, print_level=print_levels.NONE)
+        self.sa.rec_grids = None
+        if cfg.get("restart"):
+            # a first, unrelated run on the SAME object (other start levels, two refinement steps of its own), then the
+            # run under test starts from scratch through performSpatiallyAdaptiv (no refinement_container)
+            pre = c["Scripted"]()
+            l0, l1 = cfg["restart"]
+            quiet(self.sa.performSpatiallyAdaptiv, l0, l1, errorOperator=pre, tol=-1, max_evaluations=0, print_output=False)
+            for _ in range(2):
+                quiet(self.sa.refine)
+                quiet(self.sa.continue_adaptive_refinement, tol=-1, max_evaluations=0)
         if init_bens is not None:
             # benefits of the first evaluation (inside performSpatiallyAdaptiv): the initial intervals are the
             # 2^lmax equal parts of [a_d, b_d]
@@ -191,6 +223,15 @@ class Impl:
             for o, bv in zip(os_, bens[d]):
                 t[(d, float(o.start))] = float(bv)
         self.ec.table = t
+
+    def evaluate_recorded(self, resume=False):
+        """evaluation with the component grids recorded where they are used"""
+        self.sa.rec_grids = []
+        try:
+            self.evaluate(resume)
+        finally:
+            rec, self.sa.rec_grids = self.sa.rec_grids, None
+        return rec
 
     def evaluate(self, resume=False):
         """one evaluation of the current structure; `resume=True`: through the documented resume path
@@ -308,6 +349,12 @@ def gen_config(ctx, thorough, want_c03, family=None):
     for _ in range(dim):
         lo = r.choice([0, 0, -1, -3, Fraction(1, 2), 2])
         w = r.choice([1, 1, 2, Fraction(1, 2), 3, 4])
+        if r.random() < 0.12:
+            # scale extremes (dyadic, exact in doubles down to the deepest reachable level): far from the origin
+            # (|a|/(b-a) up to 2^23), tiny and huge widths
+            lo, w = r.choice([(8192, 1), (-8192, 1), (12288, Fraction(1, 1024)), (-4096, Fraction(1, 2048)),
+                              (0, Fraction(1, 2 ** 30)), (Fraction(-3, 2 ** 20), Fraction(1, 2 ** 20)), (0, 2 ** 20), (-2 ** 20, 3 * 2 ** 10)])
+            ctx.count("box_scale_extreme")
         a.append(str(Fraction(lo)))
         b.append(str(Fraction(lo) + w))
     steps = r.randint(3, 6) if not thorough else r.randint(4, 12)
@@ -326,6 +373,31 @@ def gen_config(ctx, thorough, want_c03, family=None):
     cfg["perm_seed"] = r.randint(0, 10 ** 6)
     # "resume" evaluations: the evaluation before step k goes through performSpatiallyAdaptiv(refinement_container=old)
     cfg["resume"] = [r.random() < 0.3 for _ in range(steps + 1)]
+    # catalogue d: Boolean options as bool / int 0,1 / numpy.bool_;  h: the run under test is the SECOND run on the object;
+    # b: a sibling object with another configuration works in between;  l: Function.reset_dictionary() before evaluations
+    cfg["flagrep"] = r.choice(["bool", "bool", "int", "npbool"])
+    cfg["restart"] = list(r.choice([x for x in LEVELS if x != (lmin, lmax)])) if r.random() < 0.15 else None
+    cfg["sibling"] = r.random() < 0.2
+    cfg["toggle"] = [r.random() < 0.2 for _ in range(steps + 1)]
+    if family == "spike":
+        # directed family for C03: rebalancing off, one dimension is refined again and again at its deepest interval, so that
+        # lmax_d runs several levels ahead of untouched leaves (large subtraction values, all branches of
+        # modify_according_to_levelvec); component grids observed at the end
+        cfg.update(rebalancing=False, margin=1.0, steps=r.randint(4, 7), family="spike", spike_dim=r.randrange(dim),
+                   version=r.choice([6, 7, 8, 6, 7, 8, 3, 2]), sibling=False, restart=None)
+        cfg["observe"] = [False] * cfg["steps"]
+        cfg["manual"] = [False] * cfg["steps"]
+        cfg["recall"] = [False] * cfg["steps"]
+        cfg["resume"] = [False] * (cfg["steps"] + 1)
+        cfg["toggle"] = [False] * (cfg["steps"] + 1)
+    if family == "big":
+        cfg.update(dim=2, lmin=2, lmax=4, a=cfg["a"][:2], b=cfg["b"][:2], boundary=False, margin=1.0, steps=2, family="big",
+                   sibling=False, restart=None, rebalancing=r.random() < 0.5)
+        cfg["observe"] = [False, False]
+        cfg["manual"] = [False, False]
+        cfg["recall"] = [False, False]
+        cfg["resume"] = [False, False, False]
+        cfg["toggle"] = [False, False, False]
     if family == "deepen":
         # small directed histories: rotations and raises of lmax by more than one level in the same step
         cfg.update(dim=2, lmin=1, lmax=r.choice([2, 2, 3]), a=["0", str(cfg["a"][1])], b=["1", str(cfg["b"][1])],
@@ -346,6 +418,21 @@ def gen_benefits(ctx, cfg, sizes, step_no, cap, levels=None):
     margin = Fraction(eff_margin(cfg))
     if cfg.get("family") == "deepen" and levels is not None:
         return gen_deepen(ctx, cfg, sizes, levels, cap)
+    if cfg.get("family") == "big":
+        # two uniform refinement rounds: large component grids (not used by default)
+        return [[Fraction(0)] * m for m in sizes], "big-uniform"
+    if cfg.get("family") == "spike" and levels is not None:
+        d0 = cfg.get("spike_dim", 0)
+        if sizes[d0] + 3 > cap:
+            return None, "stop"
+        bens = [[Fraction(0)] * m for m in sizes]
+        depth = max(max(l) for l in levels[d0])
+        deep = [i for i in range(sizes[d0]) if max(levels[d0][i]) == depth]
+        bens[d0][r.choice(deep)] = Fraction(1)
+        if r.random() < 0.25:
+            d1 = r.randrange(len(sizes))
+            bens[d1][r.randrange(sizes[d1])] = Fraction(1)
+        return bens, "spike"
     kind = r.choice(["single", "single", "few", "few", "ties", "threshold", "zeros", "dim-only", "many", "near", "near"])
     if kind == "near" and (margin <= 0 or sum(sizes) < 4):
         kind = "few"
@@ -620,7 +707,7 @@ class History:
         if amb:
             ctx.count("ambiguous_float_margin")
             return None
-        if any(s + sum(1 for (d_, _) in sel if d_ == d) > 2 * cap for d, s in enumerate(sizes)):
+        if cfg.get("family") != "big" and any(s + sum(1 for (d_, _) in sel if d_ == d) > 2 * cap for d, s in enumerate(sizes)):
             ctx.count("history_stopped_size")
             return None
         ctx.count("benefit_kind_" + kind)
@@ -636,6 +723,10 @@ class History:
         cap = 40 if not thorough else 72
         nsteps = cfg["steps"] if self.script is None else len(self.script)
         observe = list(cfg.get("observe", [])) + [True] * nsteps
+        if cfg.get("restart"):
+            ctx.count("restarted_runs")
+        if cfg.get("restart") and not RESTART_OBSERVE_BEFORE_FIRST_REFINE and observe:
+            observe[0] = False
         bens = self.next_benefits([2 ** cfg["lmax"]] * cfg["dim"], 0, cap, init_levels(cfg)) if nsteps > 0 else None
         try:
             impl = Impl(cfg, bens)
@@ -651,6 +742,19 @@ class History:
             self.corr("eval", "ok", drv.ask("eval"))
         self.compare_state(impl, "@init")
         self.oracle_state(impl)
+        sib = None
+        if cfg.get("sibling") and self.check_points:
+            # a second object of the class with another configuration but the same keys (dimension, level vectors,
+            # interval indices), alive at the same time; it works between two observations of the object under test
+            scfg = dict(cfg, version=[v for v in VERSIONS if v != cfg["version"]][cfg["fseed"] % 4], rebalancing=not cfg["rebalancing"],
+                        margin=0.5, fseed=cfg["fseed"] + 1, restart=None, a=list(reversed(cfg["a"])), b=list(reversed(cfg["b"])))
+            try:
+                sib = Impl(scfg, None)
+                ctx.count("sibling_objects")
+            except Exception as e:
+                self.viol("init-exception", {"exception": repr(e)[:300], "sibling": True}, {"exception": type(e).__name__})
+                return self.ok
+        self.sibling = sib
         k = 0
         while bens is not None and not self.violated:
             # the state has just been evaluated with `bens`
@@ -708,8 +812,17 @@ class History:
             table = bens if bens is not None else [[Fraction(0)] * n for n in sizes]
             impl.set_benefits(table)
             resume = bool((list(cfg.get("resume", [])) + [False] * (k + 1))[k])
+            if bool((list(cfg.get("toggle", [])) + [False] * (k + 1))[k]):
+                # rarely used public toggle in the middle of the sequence: forget the cached function values
+                ctx.count("toggle_reset_dictionary")
+                impl.f.reset_dictionary()
+            record = self.check_points and (final or observe[k])
+            used = None
             try:
-                impl.evaluate(resume=resume)
+                if record:
+                    used = impl.evaluate_recorded(resume=resume)
+                else:
+                    impl.evaluate(resume=resume)
             except Exception as e:
                 self.viol("evaluate-exception", {"exception": repr(e)[:300], "step": k, "resume": resume},
                           {"exception": type(e).__name__})
@@ -724,9 +837,88 @@ class History:
                 self.oracle_state(impl)
                 if self.violated:
                     break
-            if final:
+            if used and not self.violated:
+                self.use_site_check(impl, used, "@evaluation-%d" % k)
+            if final and not self.violated:
                 self.points_checks(impl, "@end")
         return self.ok
+
+    def state_fingerprint(self, impl):
+        """everything a getter must leave alone"""
+        return (tuple(impl.objs_str(d) for d in range(impl.dim)), impl.lmax_str(), impl.cs_str(), impl.scheme_str(),
+                impl.cursors_str())
+
+    def use_site_check(self, impl, used, tag):
+        """the component grids handed to the consumers DURING the evaluation must be the grids of the evaluated state
+        (which a fresh query returns afterwards and which the model predicts)"""
+        ctx, drv = self.ctx, self.drv
+        seen = set()
+        for lv, coords, levels in used:
+            if lv in seen and ctx.rng.random() < 0.8:
+                continue
+            seen.add(lv)
+            ctx.count("use_site_grids")
+            try:
+                pc, pl = impl.points(lv)
+            except Exception as e:
+                self.viol("points-exception", {"levelvec": lv, "exception": repr(e)[:300], "at": tag}, {"exception": type(e).__name__})
+                return
+            if [[Fraction(x) for x in c] for c in coords] != pc or levels != pl:
+                self.viol("use-site-grid", {"levelvec": list(lv), "used": str(coords)[:300], "fresh": str([[str(x) for x in c] for c in pc])[:300],
+                                            "at": tag})
+                return
+            if self.model_on and len(lv) == impl.dim:
+                mline = drv.ask("pts " + ",".join(str(x) for x in lv))
+                iline = "|".join(",".join(frac_str(Fraction(x)) for x in coords[d]) + ";" + ",".join(str(x) for x in levels[d])
+                                 for d in range(impl.dim)) + " D 1"
+                if self.cfg["version"] != 3:      # version 3 needs the float-rounding table (set in points_checks)
+                    self.corr("use-site-grid%s %s" % (tag, list(lv)), iline, mline)
+
+    def repeat_and_alias_checks(self, impl, I, grids, tag):
+        """catalogue a/c/b: the same query twice gives the same answer; the caller may overwrite what it passed and what it
+        got; a sibling object working in between changes nothing"""
+        ctx = self.ctx
+        r = ctx.rng
+        lv = r.choice(I)
+        want = (grids[lv], None)
+        arg = [int(x) for x in lv]
+        try:
+            raw = quiet(impl.sa.get_point_coord_for_each_dim, arg)
+            first = [[fr(x) for x in raw[0][d]] for d in range(impl.dim)]
+            # the caller reuses its argument list and scribbles over the returned arrays
+            for d in range(impl.dim):
+                arg[d] = 99
+                for j in range(len(raw[0][d])):
+                    raw[0][d][j] = -12345.0
+                for j in range(len(raw[1][d])):
+                    raw[1][d][j] = 77
+            if self.sibling is not None:
+                sib = self.sibling
+                ssz = [len(c.get_objects()) for c in sib.containers()]
+                if max(ssz) < 40:
+                    tb = [[Fraction(1) if r.random() < 0.3 else Fraction(0) for _ in range(n)] for n in ssz]
+                    sib.set_benefits(tb)
+                    sib.evaluate()
+                    sib.refine()
+                    ctx.count("sibling_steps")
+                sI = sib.index_set()
+                for slv in (lv if tuple(lv) in sI else sI[0], sI[-1]):
+                    sib.points(slv)
+                    sib.call([tuple(float(x) for x in sib.a)])
+                for d in range(sib.dim):
+                    bad = oracle_c06_state(sib.objs(d), Fraction(sib.cfg["a"][d]), Fraction(sib.cfg["b"][d]), int(sib.sa.lmax[d]))
+                    if bad:
+                        self.viol("state-clauses", {"dimension": d, "failed": bad, "sibling": True, "objs": sib.objs_str(d)}, {"failed": bad[0]})
+                        return
+            second = impl.points(lv)[0]
+        except Exception as e:
+            self.viol("points-exception", {"levelvec": lv, "exception": repr(e)[:300], "at": tag, "repeat": True}, {"exception": type(e).__name__})
+            return
+        ctx.count("repeated_queries")
+        if first != grids[lv] or second != grids[lv]:
+            self.viol("repeated-query", {"levelvec": list(lv), "at": tag, "first": str([[str(x) for x in c] for c in first])[:300],
+                                         "second": str([[str(x) for x in c] for c in second])[:300],
+                                         "sibling": self.sibling is not None})
 
     def model_step(self, impl, bens, refined, k):
         """one `step` of the model; the rebalancing comparisons are decided by the model in Rat and recomputed here in
@@ -776,6 +968,18 @@ class History:
 
     # ------------------------------------------------------------------------------------------- C03 part
     def points_checks(self, impl, tag):
+        """getters and __call__ observed; they must leave the refinement state alone (catalogue a)"""
+        before = self.state_fingerprint(impl)
+        self._points_checks(impl, tag)
+        if self.violated:
+            return
+        after = self.state_fingerprint(impl)
+        if after != before:
+            k = next(i for i in range(len(before)) if before[i] != after[i])
+            self.viol("getter-modifies-state", {"at": tag, "component": ["objects", "lmax", "index sets", "scheme", "cursors"][k],
+                                                "before": str(before[k])[:300], "after": str(after[k])[:300]})
+
+    def _points_checks(self, impl, tag):
         """component grids of every index-set member: correspondence and the clauses of C03 on the implementation"""
         ctx, drv, cfg = self.ctx, self.drv, self.cfg
         dim = impl.dim
@@ -846,6 +1050,10 @@ class History:
                 prev = pts
         if self.violated:
             return
+        if ctx.rng.random() < 0.6:
+            self.repeat_and_alias_checks(impl, I, grids, tag)
+            if self.violated:
+                return
         # combined grid = union of the tensor grids of the scheme's components (boundary points dropped when boundary is off)
         bd = bool(cfg["boundary"])
         combined = set()
@@ -855,6 +1063,7 @@ class History:
             s = set(itertools.product(*g))
             comp_sets.append((lv, c, s))
             combined |= s
+            ctx.count("component_grid_ge200_points" if len(s) >= 200 else "component_grid_lt200_points")
         pts = sorted(combined)
         ctx.count("combined_grid_points", len(pts))
         for x in pts:
@@ -914,6 +1123,13 @@ class History:
             good = False
         if not good:
             self.corr("combined-interpolant-off-grid" + tag, [repr(v) for v in ovals], mo)
+        try:
+            again = impl.call(off)
+        except Exception as e:
+            self.viol("call-exception", {"exception": repr(e)[:300], "at": tag, "points": "off-grid, repeated"}, {"exception": type(e).__name__})
+            return
+        if again != ovals:
+            self.viol("repeated-query", {"what": "__call__", "at": tag, "first": [repr(v) for v in ovals], "second": [repr(v) for v in again]})
 
 
 def malformed_stream(ctx, drv, prop):
